@@ -98,7 +98,7 @@ def histories():
     for n in (2, 3, 4):
         add('mstate.x%d' % n, lambda g, w, n=n: ['ms.op name=load n=%d obj=1 data=%s tape=rand tapedata=%s' % (n, g.sec(40), g.sec(8)), 'ms.op name=permute n=%d obj=1 r=0' % n, 'ms.op name=free n=%d obj=1 dump_raw=1 wipe=%d' % (n, w)])
     # the primitive every free/clear function rests on: exactly the named range becomes zero
-    for n, off, tot in ((0, 0, 0), (0, 3, 8), (1, 0, 1), (1, 7, 9), (7, 1, 9), (8, 0, 8), (9, 3, 16), (40, 0, 40), (41, 5, 64), (255, 1, 257), (1024, 0, 1024)):
+    for n, off, tot in ((0, 0, 0), (0, 3, 8), (1, 0, 1), (1, 7, 9), (7, 1, 9), (8, 0, 8), (9, 3, 16), (40, 0, 40), (41, 5, 64), (255, 1, 257), (1024, 0, 1024), (66, 1, 70), (66, 3, 72), (36, 4, 44), (13, 5, 24), (9, 7, 16), (3, 2, 8)):
         add('clean.%d.%d' % (n, off), lambda g, w, n=n, off=off, tot=tot: ['util.clean in=%s off=%d n=%d align=%d null_if_empty=%d' % (g.sec(tot) if tot else '-', off, n, g.shape.randrange(8), 1 if tot == 0 else 0)])
     # C++ cipher objects: destructor and clear(), after use
     for cls, kl in (('aead128', 16), ('aead128a', 16), ('aead80pq', 20), ('siv128', 16), ('siv128a', 16), ('siv80pq', 20), ('isap128a', 16), ('isap128', 16), ('isap80pq', 20),
@@ -161,6 +161,10 @@ def run(c):
     build_many(cfgs)
     for fl in cfgs:
         c.tv(plan_of(c, mh, 4 if 'ms3' not in fl else 3), fl, 'wipemasked', max_cost=20.0)
+    # a C library without explicit_bzero / memset_s (ascon_clean falls back to its own loop): the primitive itself at
+    # every (length, offset, alignment) class, and the objects whose size is not a multiple of 8
+    ch = [(n, f) for n, f in hs if n.startswith('clean.') or n.startswith('hkdf') or '80pq' in n or n.startswith('perm')]
+    c.tv(plan_of(c, ch), 'nobzero', 'wipeloop', max_cost=20.0)
     drv, cmd, out = build_extra('cxx')
     if drv: c.tv(plan_of(c, cxx_histories()), 'rel', 'wipecxx', drv=drv, max_cost=20.0)
     c.cov['exhaustive'] = True
